@@ -212,6 +212,7 @@ class Event:
     kind: str           # 'div' | 'ctor' | 'add' | 'cmp' | 'floordiv'
     node: ast.AST
     data: Dict[str, Any]
+    path: List[Tuple[str, bool]] = field(default_factory=list)
 
 
 class Env(dict):
@@ -298,6 +299,16 @@ class Heads:
         return n / d
 
 
+class _EventList(list):
+    def __init__(self, owner: Any) -> None:
+        super().__init__()
+        self.owner = owner
+
+    def append(self, ev: Any) -> None:
+        ev.path = list(getattr(self.owner, "cur_path", []))
+        super().append(ev)
+
+
 # --------------------------------------------------------------------- interpreter
 Spec = Callable[["Interp", ast.AST, List[AV], Dict[str, AV]], Optional[AV]]
 
@@ -310,10 +321,11 @@ class Interp:
         self.specs: Dict[str, Spec] = specs if specs is not None else {}
         self.inline_depth = inline_depth
         self.heads = Heads()
-        self.events: List[Event] = []
+        self.events: List[Event] = _EventList(self)
         self.depth = 0
         self.trace_inlined: List[str] = []
         self.globals: Dict[str, AV] = {}
+        self.cur_path: List[Tuple[str, bool]] = []
 
     # ------------------------------------------------------------ functions
     def run(self, qual: str, args: Dict[str, AV]) -> List[Outcome]:
@@ -337,6 +349,7 @@ class Interp:
         while i < len(stmts):
             st = stmts[i]
             i += 1
+            self.cur_path = list(path)
             if isinstance(st, ast.Expr):
                 if isinstance(st.value, ast.Constant):
                     continue
@@ -1165,6 +1178,10 @@ class Interp:
         self.trace_inlined.append(target)
         try:
             outs = self.run(target, bind)
+        except Unsupported as ex:
+            # the callee is outside the interpreted subset: its result is unknown here; a
+            # rule that needs the value reports an analysis error, never a verdict
+            return OpaqueV(f"{target} not interpretable: {ex}")
         finally:
             self.depth -= 1
         rets = [o for o in outs if o.kind == "return"]
